@@ -1121,9 +1121,29 @@ func runWire(t evid.TB, pl *wplan, audience bool) *wresult {
 		}
 		return false
 	}
-	deadline := time.Now().Add(wireBound)
+	// The verdict "the sentinel did not arrive" is state-based where the transport
+	// allows it (a filler published after the sentinel has arrived on the same ordered
+	// channel and the sentinel has not) and otherwise bounded by progress, not by the
+	// wall clock alone: at least wireBound, at least wireMinFillers fillers published
+	// and half a bound more after that. A starved machine (this loop itself then gets
+	// few turns) extends the wait up to 15 bounds instead of producing a verdict.
+	const wireMinFillers = 300
+	fillerKeys := map[string]bool{}
+	overtaken := func(c *wclient) bool {
+		if c.flvKind() {
+			return false
+		}
+		for i := len(c.items) - 1; i >= 0 && i >= len(c.items)-64; i-- {
+			if fillerKeys[l.key(0, c.items[i].Data)] {
+				return true
+			}
+		}
+		return false
+	}
+	start := time.Now()
+	var enough time.Time
 	for {
-		all := true
+		all, lost := true, false
 		for _, c := range clients {
 			if c.left {
 				continue
@@ -1131,12 +1151,20 @@ func runWire(t evid.TB, pl *wplan, audience bool) *wresult {
 			c.poll()
 			if !seen(c) {
 				all = false
+				if overtaken(c) {
+					c.poll() // what was in flight
+					lost = !seen(c)
+				}
 			}
 		}
 		if all {
 			break
 		}
-		if time.Now().After(deadline) {
+		if enough.IsZero() && l.extra-1 >= wireMinFillers {
+			enough = time.Now()
+		}
+		el := time.Since(start)
+		if lost || el > 15*wireBound || (el > wireBound && !enough.IsZero() && time.Since(enough) > wireBound/2) {
 			var missing []string
 			for _, c := range clients {
 				if !c.left && !seen(c) {
@@ -1144,10 +1172,12 @@ func runWire(t evid.TB, pl *wplan, audience bool) *wresult {
 				}
 			}
 			evid.Violation(t, "wire-sentinel-missing", detail(map[string]any{"missing": missing, "fillers": l.extra - 1}),
-				"the sentinel published after the log did not reach %v within %v although %d filler packets followed it", missing, wireBound, l.extra-1)
+				"the sentinel published after the log did not reach %v within %v although %d filler packets followed it (a later filler overtook it: %v)", missing, el.Round(time.Millisecond), l.extra-1, lost)
 		}
 		if l.extra < 4000 {
-			if err := pub.publish(l.extraPacket()); err != nil {
+			f := l.extraPacket()
+			fillerKeys[l.key(0, f.Data)] = true
+			if err := pub.publish(f); err != nil {
 				evid.Violation(t, "wire-publish-refused", detail(nil), "publishing a filler failed: %v", err)
 			}
 		}
